@@ -25,7 +25,8 @@ func genPMap(cfg Config, emit func(string, bool, []string)) {
 	}
 	for c := 0; c < n; c++ {
 		r := newRand(cfg.Seed, uint64(1700+c))
-		ascii := c%2 == 0
+		ascii := c%3 == 0
+		highBytes := c%3 == 2 // keys over {a, b, 0xff}: the largest branch byte under small nodes
 		var used [][]byte
 		key := func() []byte {
 			if len(used) > 0 && r.IntN(2) == 0 {
@@ -49,6 +50,11 @@ func genPMap(cfg Config, emit func(string, bool, []string)) {
 				if r.IntN(6) == 0 {
 					k = append(k, byte('c'+r.IntN(20))) // wider fan-out
 				}
+			} else if highBytes {
+				k = make([]byte, r.IntN(4))
+				for i := range k {
+					k[i] = []byte{'a', 'b', 0xff, 0xff}[r.IntN(4)]
+				}
 			} else {
 				k = genKey(r, 4)
 			}
@@ -70,8 +76,14 @@ func genPMap(cfg Config, emit func(string, bool, []string)) {
 				add("mset %d %s %d", m, hx(key()), r.IntN(1000))
 				nm++
 			case x < 32:
-				add("mdel %d %s", m, hx(key()))
+				dk := key()
+				add("mdel %d %s", m, hx(dk))
 				nm++
+				if r.IntN(2) == 0 {
+					// look the deleted key up in the result
+					add("mget %d %s", nm-1, hx(dk))
+					add("mprefix %d %s", nm-1, hx(dk))
+				}
 			case x < 40:
 				cnt := r.IntN(5)
 				seen := map[string]bool{}
@@ -116,7 +128,9 @@ func genPMap(cfg Config, emit func(string, bool, []string)) {
 					case 0, 1, 2:
 						add("tset %s %d", hx(key()), r.IntN(1000))
 					case 3:
-						add("tdel %s", hx(key()))
+						dk := key()
+						add("tdel %s", hx(dk))
+						add("tget %s", hx(dk))
 					case 4:
 						add("tget %s", hx(key()))
 					case 5:
